@@ -28,6 +28,7 @@ import PGProofs.RewardsThm
 import PGProofs.SampleConsistency
 import PGProofs.ApiThm
 import PGProofs.MemoThm
+import PGProofs.EndToEnd
 
 set_option linter.all false
 set_option pp.fieldNotation.generalized false
@@ -101,6 +102,9 @@ theorem memo_frozenset_defect : (Memo.runAll Memo.Variant.frozensetComposite Mem
 /-- kernel-checked: hashing the defining class name makes composites differing in a stateless member collide (bare atoms still do not) -/
 theorem memo_base_class_hash_defect : (Memo.runAll Memo.Variant.baseClassHash Memo.toy Memo.init [Memo.momentOf [Reward.prod [Reward.unit, Memo.A]], Memo.momentOf [Reward.prod [Reward.unit, Memo.B]]]).answers = [580681, 580681] ∧ List.map (Memo.spec Memo.toy) [Memo.momentOf [Reward.prod [Reward.unit, Memo.A]], Memo.momentOf [Reward.prod [Reward.unit, Memo.B]]] = [580681, 598681] ∧ (Memo.runAll Memo.Variant.current Memo.toy Memo.init [Memo.momentOf [Reward.prod [Reward.unit, Memo.A]], Memo.momentOf [Reward.prod [Reward.unit, Memo.B]]]).answers = [580681, 598681] := @PG.Memo.baseClassHash_collides
 
+/-- accumulate(center, permute) is a fixed combination of the raw moments of its sub-tuples: equal raw ingredients give equal results -/
+theorem call_congruence : ∀ {ρ V : Type} [inst : MomVal V] [inst_1 : Inhabited ρ] (raw raw' : List ρ → V) (c p : Bool) (rs : List ρ), (∀ l' ⊆ rs, raw l' = raw' l') → accumulateModel raw c p rs = accumulateModel raw' c p rs := @PG.EndToEnd.accumulateModel_congr
+
 end PG.C15
 
 #print axioms PG.C15.cov_routes_agree
@@ -125,3 +129,4 @@ end PG.C15
 #print axioms PG.C15.memo_keys_exact
 #print axioms PG.C15.memo_frozenset_defect
 #print axioms PG.C15.memo_base_class_hash_defect
+#print axioms PG.C15.call_congruence
